@@ -197,8 +197,7 @@ def check_case(case):
         eper, efinal, exact = envmodel.recount(esegs, lx)
         for i, (g, e) in enumerate(zip(per, eper)):
             g = _env_only(g)
-            if not exact[i] or (esegs[i][0] == 'HL' and len(esegs[i][1]) < 2):
-                # a parent verdict for an HL segment that has no HL02 element at all is unspecified
+            if not exact[i]:
                 g = [x for x in g if x != ('seg', 'HL2')]
                 e = [x for x in e if x != ('seg', 'HL2')]
             if g != e:
